@@ -63,7 +63,19 @@ def walk(case, on_step):
                     cls = type(obj)
 
                     def f():
-                        new = cls.frombytes(bytes(obj), hash_function=hash_arg(case))
+                        if step % 2 == 1:
+                            with core.Scratch() as tmp:
+                                import os
+
+                                p = os.path.join(tmp, "t.cko")
+                                with open(p, "wb") as fh:  # an older, larger export is already at the path
+                                    fh.write(b"\x99" * (len(bytes(obj)) + 640))
+                                obj.export(p)
+                                with open(p, "rb") as fh:
+                                    data = fh.read()
+                            new = cls.frombytes(data, hash_function=hash_arg(case))
+                        else:
+                            new = cls.frombytes(bytes(obj), hash_function=hash_arg(case))
                         new.fingerprint_size = case["fsz"]
                         new.auto_expand = case["auto"]
                         new.expansion_rate = case["rate"]
